@@ -4,12 +4,26 @@ import PrologVerif.Model.Unify
 namespace PrologVerif.Driver.C10
 open PrologVerif PrologVerif.Driver PrologVerif.VM
 
+/-- the elements of a chain of generic '.'/2 compounds ending in `[]` -/
+def chainToList : Nat → Rep → Option RepList
+  | 0, _ => none
+  | _ + 1, .atom "[]" => some .nil
+  | n + 1, .compound "." (.cons h (.cons tl .nil)) => (chainToList n tl).map (.cons h)
+  | _, _ => none
+
 -- the annotated term of the harness (hook VerifRepTree) → Rep
 def annApp (f : String) (rs : RepList) : Rep :=
   if f = "$list" then .list rs
   else if f = "$partial" then
     match rs with
-    | .cons p (.cons t .nil) => .part p t
+    | .cons p (.cons t .nil) =>
+      -- A *partial is only ever read through ListIterator over its prefix (clause.go, compound.go), so
+      -- a prefix that is a chain of '.'/2 compounds (append/3 with a first argument in canonical dot
+      -- notation) is presented to the model as the list of its elements; that the compiled code is the
+      -- same is what this stream compares.
+      match chainToList 100000 p with
+      | some es => (match es with | .nil => .part p t | _ => .part (.list es) t)
+      | none => .part p t
     | _ => .compound f rs
   else if f = "$chars" then
     match rs with
@@ -230,6 +244,8 @@ def observeHandler : Handler := fun payload impl =>
           if a ≠ e then "FAIL the clause behaves differently when loaded through Exec and through assertz"
           else if !(impl.startsWith (varsWant ++ " ;;")) then
             "FAIL storing the clause changed the caller's variables: want " ++ varsWant
+          else if !disj && section_ impl "inq: " ≠ "[" ++ want ++ "]" then
+            "FAIL clause/2 in the asserting query, after the caller bound its variables further, does not show the clause as stored (bindings made after storing leak into it): want " ++ want
           else if field a "call2" ≠ field a "call" then
             "FAIL calling the predicate with a variant of its head (built through a different constructor path) does not behave as calling it with fresh variables"
           else if field a "clause" = want && field a "retract" = want && (a.splitOn "left=0").length = 2 then "ok"
